@@ -332,3 +332,11 @@ def value_or_param_satisfies(ctx, f, body, v, pred, depth=0):
                     if len(c['args']) < k or not value_or_param_satisfies(ctx, f, cb, c['args'][k - 1], pred, depth + 1):
                         return False
     return seen > 0
+
+
+def member_arg(f, call, fn='Foca::serialize_member'):
+    """The Member argument of a call to `fn`, wherever the parameter stands (found by type)."""
+    b = f.fn(fn)
+    ks = [k for k in range(1, b.argc + 1) if str(b.locals[k]).startswith('member::Member<')]
+    k = ks[0] if len(ks) == 1 else 2
+    return call['args'][k - 1] if len(call['args']) >= k else None
